@@ -65,3 +65,15 @@ Check C13_torsion_complete : forall (PR : PrimeR) (ND : NonSquareD) asg point n,
   (asg (fst point), asg (snd point)) = Q8 ->
   block_sat (torsion_rows point n) asg.
 Print Assumptions C13_torsion_complete.
+
+From PlonkV Require Import Composer.InSystem.
+Theorem C13_torsion_in_system : forall (PR : PrimeR) (ND : NonSquareD) pre post asg point n,
+  sat (pre ++ torsion_rows point n ++ post) asg ->
+  let Q := (asg n, asg (S n)) in
+  on_curve Q /\ (asg (fst point), asg (snd point)) = ed_double (ed_double (ed_double Q)).
+Proof. exact @torsion_sound_in_system. Qed.
+Check C13_torsion_in_system : forall (PR : PrimeR) (ND : NonSquareD) pre post asg point n,
+  sat (pre ++ torsion_rows point n ++ post) asg ->
+  let Q := (asg n, asg (S n)) in
+  on_curve Q /\ (asg (fst point), asg (snd point)) = ed_double (ed_double (ed_double Q)).
+Print Assumptions C13_torsion_in_system.
